@@ -197,6 +197,16 @@ func (img *PageImage) ToPNG() ([]byte, error) {
 			return nil, fmt.Errorf("failed to decode JPEG: %w", err)
 		}
 	} else {
+		// Width and Height come from the file. Check them against the data
+		// before any image buffer is allocated: no sample format here uses
+		// less than one bit per pixel.
+		if img.Width <= 0 || img.Height <= 0 {
+			return nil, fmt.Errorf("invalid image dimensions: %dx%d", img.Width, img.Height)
+		}
+		if img.Width > len(img.Data)*8/img.Height {
+			return nil, fmt.Errorf("insufficient data: %d bytes for %dx%d pixels", len(img.Data), img.Width, img.Height)
+		}
+
 		// Handle raw pixel data based on color space
 		switch img.ColorSpace {
 		case "DeviceGray", "CalGray", "ICCBased":
